@@ -78,9 +78,9 @@ func FOp(op string, s Sort, args ...*Term) *Term {
 			return FPow(b1, new(big.Int).Add(e1, e2))
 		}
 	}
-	if (op == "fadd" || op == "fmul") && args[0].id > args[1].id {
-		args[0], args[1] = args[1], args[0] // commutative normal form
-	}
+	// No commutative reordering: argument positions must be stable under replacing a term by one that is equal
+	// to it by a hypothesis (otherwise f(a,b) and f(a',b') with a=a', b=b' can print with swapped arguments and
+	// congruence no longer applies). Specs are written in the operand order of the code.
 	return TS.mk(op, s, "", nil, 0, 0, args...)
 }
 
